@@ -606,5 +606,22 @@ def runQuery (o : Obj) : Query → M (Obj × Out)
       | .error e => .error e
       | .ok b' => pure ({ o1 with secs := o1.secs.set i b' }, .swapped)
 
+/-- the queries that do not write to section data (everything but `arrange` and `swap`) -/
+def Query.readOnly : Query → Bool
+  | .arrange _ => false
+  | .swap _ _ _ => false
+  | _ => true
+
+/-- a sequence of queries, each on the object the previous one left (lazy loads mutate the object) -/
+def runQueries (o : Obj) : List Query → M (Obj × List Out)
+  | [] => pure (o, [])
+  | q :: qs =>
+    match runQuery o q with
+    | .error e => .error e
+    | .ok (o1, out) =>
+      match runQueries o1 qs with
+      | .error e => .error e
+      | .ok (o2, outs) => pure (o2, out :: outs)
+
 end TQ
 end ElfioVerif
